@@ -5,6 +5,7 @@ pub mod build;
 pub mod canon;
 pub mod checks;
 pub mod framework;
+pub mod gen;
 pub mod refsem;
 pub mod run;
 pub mod term;
